@@ -19,6 +19,7 @@ Proofs: Proofs/NoPanic*.lean, Proofs/Malformed*.lean, Proofs/BuiltinMeets.
 import EvalexprVerif.Proofs.NoPanic
 import EvalexprVerif.Proofs.BuiltinMeets
 import EvalexprVerif.Proofs.AgreePanic
+import EvalexprVerif.Proofs.ParseLoose
 
 namespace Evalexpr.Spec.C01
 open Evalexpr Evalexpr.Spec
@@ -44,6 +45,18 @@ theorem C01_run_string (k : Kind) (m : Mode) (src : List Char) (s : St) (hc : No
 /-- recursion depth is bounded by the input length -/
 theorem C01_depth (ts : List Token) (t : Node) (h : tokensToOperatorTree ts = .ok t) :
     Node.depth t ≤ 2 * ts.length + 1 := Evalexpr.Spec.C01_depth_linear ts t h
+
+/-- … in terms of the input string: no deeper than twice its length plus one -/
+theorem C01_depth_string (s : List Char) (t : Node) (h : buildOperatorTree s = .ok t) :
+    Node.depth t ≤ 2 * s.length + 1 := by
+  unfold buildOperatorTree at h
+  cases ht : tokenize s with
+  | error e => rw [ht] at h; cases h
+  | ok ts =>
+    rw [ht] at h
+    have h1 := C01_depth ts t h
+    have h2 := Evalexpr.Spec.tokenize_length s ts ht
+    omega
 
 /-- the three provided kinds of context satisfy the hypothesis when their user functions do -/
 example : NoPanicCtx .empty := fun _ _ _ h => by cases h
